@@ -51,7 +51,15 @@ def cells(tier):
     out.append(mcell(PID, 'frame', ['metaB'], T=T, n_meta=1))
     out.append(mcell(PID, 'frame', ['metaB', 'roEdStart'], T=T, meta_split=True))
     out.append(mcell(PID, 'frame', ['metaX', 'fresh'], T=T, N=3, gap=1))
+    # nested blocks (inside stories and items) with the same mosSchema as a carried block are not addressed
+    for carry, ss, extra in ((['metaA'], 'A', {}), (['metaX'], 'X', {}), (['metaX', 'roEdStart'], 'X', {'n_meta': 0}),
+                             (['metaA', 'metaB'], 'A', {'meta_split': True}), (['metaA'], 'A', {'meta_pos': 2})):
+        out.append(mcell(PID, 'frame', carry, T=T, story_schema=ss, **extra))
     for N in (1, 3):
         out.append(icell(PID, 'roReadyToAir', N=N, T=T))
         out.append(icell(PID, 'roDelete', N=N, T=T))
+    # the same from a state reached through a roReplace (new roCreate element, deep-copied children)
+    plain = lambda op, story_k, tk, sk, nk: story_k in (None, 'existing') and tk in (None, 'existing', 'unknown') and \
+        (sk is None or sk in (['existing'], ['existing', 'existing'], ['existing', 'unknown'])) and (nk is None or nk == ['fresh'])
+    out += make_cells(PID, 'frame', tier, N=3, thin=plain, extra={'prehist': True}, suffix='after-roReplace')
     return out
